@@ -45,6 +45,7 @@ EVENT_FORMS = {
     'ms': ('multi', '', ['  lead', 'b']),     # continuation line that begins with spaces
     'dd': ('data', 'hdr', [' .', 'b']),            # ' .' (followed by the marker) is data; only '.' alone ends the block
     's8': ('single', 'Read configuration file "/home/j\u00fcrgen/torrc".', []),     # 8-bit text (Tor prints paths as they are)
+    'ddot': ('data', 'hdr', ['.x', '..y', 'z.']),     # lines that begin with '.' (dot-stuffed on the wire) arrive as Tor meant them
     'db': ('data', 'hdr', ['a', None, None, 'b']),   # blank lines (None = really empty) inside the data block are payload
 }
 REPLY_SHAPES = ['M1', 'D', 'EM']
@@ -425,7 +426,7 @@ def check_setevents(env, ctl, viol):
 # families
 
 def route_cases(tier):
-    forms = ['s', 's0', 'm', 'mp', 'd', 'dp', 'de', 'ms', 'db', 's8']
+    forms = ['s', 's0', 'm', 'mp', 'd', 'dp', 'de', 'ms', 'db', 's8', 'ddot']
     names = [SUB, UNSUB, UNKNOWN]
     singles = [((n, f),) for n in names for f in forms]
     doubles = [((n1, f1), (n2, f2)) for n1 in names for f1 in forms for n2 in names for f2 in forms
